@@ -148,10 +148,33 @@ def check_rotation(ctx: Context, rep, rule: str) -> None:
         raise AnalysisError(f"C15.rot: expected one recv and one send in "
                             f"next(), found {len(recvs)}/{len(sends)}")
 
+    # `let cur = self.communication.get(i)?;` / `&self.communication[i]`:
+    # a checked or borrowed look-up of the same element
+    elem_alias: dict[str, dict] = {}
+    for loc_ in walk(fn.body):
+        if kind(loc_, "Local") and kind(loc_.get("pat"), "PIdent") and \
+                isinstance(loc_.get("init"), dict):
+            init = loc_["init"]
+            while init.get("k") in ("Try", "Ref") or (
+                    kind(init, "MethodCall") and init["method"] in (
+                        "unwrap", "expect") and not init["args"][1:]):
+                init = init["expr"] if init.get("k") in ("Try", "Ref") \
+                    else init["recv"]
+            if kind(init, "MethodCall") and init["method"] in (
+                    "get", "get_mut") and len(init["args"]) == 1:
+                elem_alias[loc_["pat"]["name"]] = {
+                    "k": "Index", "line": init.get("line"),
+                    "base": init["recv"], "index": init["args"][0],
+                    "text": f"{text(init['recv'])}[{text(init['args'][0])}]"}
+            elif kind(init, "Index"):
+                elem_alias[loc_["pat"]["name"]] = init
+
     def chan_index(call):
         for n in walk(call["recv"]):
             if kind(n, "Index"):
                 return n
+            if kind(n, "Path") and n["path"] in elem_alias:
+                return elem_alias[n["path"]]
         return None
 
     ri, si = chan_index(recvs[0]), chan_index(sends[0])
@@ -221,8 +244,19 @@ def check_rotation(ctx: Context, rep, rule: str) -> None:
     lp = loops[0]
     rng = lp["iter"]
     var = lp["pat"].get("name")
+    implicit_pull = None   # name bound to the pulled task by the loop header
     ok_rng = kind(rng, "Range") and norm(text(rng.get("from"))) == "0" and \
         norm(text(rng.get("to"))) == "threads" and rng.get("limits") == ".."
+    if not ok_rng and norm(text(rng)) in (
+            "iter.by_ref().take(threads).enumerate()",
+            "(&mutiter).take(threads).enumerate()") and \
+            kind(lp["pat"], "PTuple") and len(lp["pat"]["elems"]) == 2 and \
+            all(kind(e, "PIdent") for e in lp["pat"]["elems"]):
+        # for (t, task) in iter.by_ref().take(threads).enumerate(): one pull
+        # per round, at most `threads` rounds, index counts from 0
+        ok_rng = True
+        var = lp["pat"]["elems"][0]["name"]
+        implicit_pull = lp["pat"]["elems"][1]["name"]
     rep.ob(rule, bool(ok_rng), loc=pf.loc(lp), where=pf.qual,
            construct=f"for {var} in {norm(text(rng))}",
            message="worker start-up loop runs over 0..threads")
@@ -236,7 +270,8 @@ def check_rotation(ctx: Context, rep, rule: str) -> None:
     conts = [n for n in body_nodes if kind(n, "Continue")]
     cond_push = any(n.get("k") in ("If", "Match") and any(
         x is p for p in pushes for x in walk(n)) for n in body_nodes)
-    ok = len(pushes) == 1 and len(lsends) == 1 and len(pulls) == 1 and \
+    n_pulls = len(pulls) + (1 if implicit_pull else 0)
+    ok = len(pushes) == 1 and len(lsends) == 1 and n_pulls == 1 and \
         not conts and not cond_push
     idx = None
     if lsends:
@@ -244,18 +279,18 @@ def check_rotation(ctx: Context, rep, rule: str) -> None:
             if kind(n, "Index"):
                 idx = norm(text(n["index"]))
     rep.ob(rule, ok and idx == var, loc=pf.loc(lp), where=pf.qual,
-           construct=f"push x{len(pushes)}, pull x{len(pulls)}, send to "
+           construct=f"push x{len(pushes)}, pull x{n_pulls}, send to "
            f"[{idx}] x{len(lsends)}",
            message="per loop round: one pull, one channel pushed, the task "
            "sent to the channel with the loop index (k-th task -> k-th "
            "worker)")
-    if pulls and lsends:
+    if (pulls or implicit_pull) and lsends:
         sent = lsends[0]["args"][0] if lsends[0]["args"] else None
         # the sent value derives from the pulled task
-        pulled_names = []
+        pulled_names = [implicit_pull] if implicit_pull else []
         for n in body_nodes:
-            if kind(n, "Local") and any(x is pulls[0]
-                                        for x in walk(n.get("init"))):
+            if pulls and kind(n, "Local") and any(
+                    x is pulls[0] for x in walk(n.get("init"))):
                 pulled_names += [p["name"] for p in walk(n.get("pat"))
                                  if kind(p, "PIdent")]
         sent_t = norm(text(sent)) if sent is not None else ""
@@ -400,31 +435,58 @@ def check_cursor(ctx: Context, rep, rule: str) -> None:
         "adds exactly 1")
     fn = ctx.rust.fn(EI, "<Iterator for ShardProgress>::next")
     oi = order_index(fn)
-    ifs = [n for n in walk(fn.body) if kind(n, "If")]
-    guard = None
+    # the cursor: either two counters (used, total) or one half-open range
+    # of the ids still to come (position = range.start)
+    ifs = [n for n in walk(fn.body) if kind(n, "If") and any(
+        kind(x, "Return") and norm(text(x.get("expr") or {})) == "None"
+        for x in walk(n["then"]))]
+    guard, POS = None, None
     for n in ifs:
-        c = n["cond"]
-        ct = norm(text(c))
-        if "used_examples" in ct and "total_examples" in ct and any(
-                kind(x, "Return") and norm(text(x.get("expr") or {})) == "None"
-                for x in walk(n["then"])):
-            guard = n
+        ct = norm(text(n["cond"]))
+        if "used_examples" in ct and "total_examples" in ct:
+            guard, POS = n, "self.used_examples"
+            ok_forms = {"self.used_examples>=self.total_examples",
+                        "self.total_examples<=self.used_examples",
+                        "self.used_examples==self.total_examples",
+                        "!(self.used_examples<self.total_examples)"}
+        elif ct.endswith(".is_empty()") and ct.startswith("self."):
+            base = ct[:-len(".is_empty()")]
+            guard, POS = n, base + ".start"
+            ok_forms = {base + ".is_empty()", base + ".start>=" + base + ".end"}
+        elif ct.startswith("self.") and ".start>=" in ct and ct.endswith(".end"):
+            base = ct.split(".start>=")[0]
+            guard, POS = n, base + ".start"
+            ok_forms = {base + ".start>=" + base + ".end"}
     rep.ob(rule, guard is not None, loc=fn.loc(), where=fn.qual,
            construct="if used >= total { return None }",
            message="exhaustion test present")
     if guard is None:
         return
     ct = norm(text(guard["cond"]))
-    ok_forms = {"self.used_examples>=self.total_examples",
-                "self.total_examples<=self.used_examples",
-                "self.used_examples==self.total_examples",
-                "!(self.used_examples<self.total_examples)"}
     rep.ob(rule, ct in ok_forms, loc=fn.loc(guard), where=fn.qual,
            construct=ct,
            message="None exactly when used >= total (used <= total is an "
            "invariant, so == is accepted)")
+    if POS.endswith(".start"):
+        # the range must be initialised as 0 .. total where it is built
+        fld = POS[len("self."):-len(".start")]
+        inits = []
+        for key, f in ctx.rust.functions.items():
+            if not key.startswith(EI):
+                continue
+            for st in walk(f.body):
+                if kind(st, "Struct") and "ShardProgress" in st["path"]:
+                    for fl in st["fields"]:
+                        if fl["member"] == fld:
+                            inits.append(norm(text(fl["expr"])))
+        rep.ob(rule, bool(inits) and all(
+            x.startswith("0..") and not x.startswith("0..=") for x in inits),
+               loc=fn.loc(), where="ShardProgress",
+               construct=f"{fld} = {inits}",
+               message="the range of remaining ids starts at 0 and excludes "
+               "the total")
     incs = [n for n in walk(fn.body) if kind(n, "Binary") and n["op"] == "+=" and
-            norm(text(n["left"])) == "self.used_examples"]
+            norm(text(n["left"])) == POS]
     # the read of the example: `examples.get(IDX)`, either here (helper
     # inlined / written in place) or in the one function this one calls with
     # the cursor as an argument
@@ -434,15 +496,14 @@ def check_cursor(ctx: Context, rep, rule: str) -> None:
     if here:
         reader = fn
         read_site = here[0]
-        idx_ok = len(here) == 1 and norm(text(here[0]["args"][0])) == \
-            "self.used_examples"
+        idx_ok = len(here) == 1 and norm(text(here[0]["args"][0])) == POS
         site_in_next = here[0]
     else:
         site_in_next = None
         for c in [n for n in walk(fn.body) if kind(n, "Call") and
                   kind(n.get("func"), "Path")]:
             pos = [k for k, a in enumerate(c["args"])
-                   if norm(text(a)) == "self.used_examples"]
+                   if norm(text(a)) == POS]
             if len(pos) != 1:
                 continue
             cand = [f for key, f in ctx.rust.functions.items()
@@ -543,13 +604,24 @@ def rust_codec_tables(ctx: Context):
             pats = a["pat"]["cases"] if kind(a["pat"], "POr") else [a["pat"]]
             lits = [n for n in walk(a["body"]) if n.get("k") in (
                 "Macro", "MacroStmt") and n["path"] == "write"]
-            if not lits or not lits[0].get("args") or len(lits[0]["args"]) < 2:
+            if lits and lits[0].get("args") and len(lits[0]["args"]) >= 2:
+                lit = ast.literal_eval(lits[0]["args"][1]["value"])
+            elif kind(a["body"], "Lit") and a["body"]["value"].startswith('"'):
+                # a name table: `Variant => "NAME"` (written by the caller)
+                lit = ast.literal_eval(a["body"]["value"])
+            else:
                 raise AnalysisError(f"{dp.loc(a)}: Display arm not understood")
-            lit = ast.literal_eval(lits[0]["args"][1]["value"])
             for p in pats:
                 mm = re.search(r"CompressionType::(\w+)", norm(text(p)))
                 if mm:
                     var2name[mm.group(1)] = lit
+    if not name2var:
+        # from_str searches the variants for the one whose name equals the
+        # input: the inverse of the name table by construction
+        bt = norm(text({"text": " ".join(text(x) for x in fs.body)}))
+        if ".find(" in bt and "==input" in bt and "iter()" in bt and \
+                len(set(var2name.values())) == len(var2name):
+            name2var = {n: v for v, n in var2name.items()}
     var2fam: dict[str, str] = {}
     wild = False
     for m in [n for n in walk(gb.body) if kind(n, "Match")]:
